@@ -175,3 +175,81 @@ func init() {
 	registerKind("c17.bisectchild", runC17Bisect)
 	childKinds["c17.bisectchild"] = true
 }
+
+// ---------------------------------------------------------------------------------------------
+// c17.overlap: the real job.Run (raffle ticket, instrumentErrorHandling, wrapped sink with the real log
+// handler, handleJobError, stored result) over one batch of n entities with a rejecting sink, while ANOTHER
+// trigger of the same job fires during the k-th sink call (it is turned away by the raffle). A trigger that
+// does not get a ticket must not disturb the run in progress.
+// in {"n","bad":[…],"m":maxItems,"triggerAt":k}   out {"delivered":[…],"calls":n,"failed":bool}
+
+var c17JobN int
+
+func runC17Overlap(c *Ctx, in M) (out interface{}) {
+	defer func() {
+		if r := recover(); r != nil {
+			out = M{"panic": fmt.Sprint(r)}
+		}
+	}()
+	if c17Hub == nil {
+		c17Hub = NewHub(c, true)
+	}
+	c17JobN++
+	jobID := fmt.Sprintf("c17o-%d-%d", c.Seed, c17JobN)
+	n := geti(in, "n")
+	bad := intSet(getl(in, "bad"))
+	triggerAt := geti(in, "triggerAt")
+	sink := &jobs.VerifSink{}
+	var vj *jobs.VerifJob
+	sink.Fail = func(call int, es []*server.Entity) error {
+		if call == triggerAt {
+			done := make(chan struct{})
+			go func() { defer close(done); vj.Run() }() // a second trigger of the same job: no ticket, returns at once
+			select {
+			case <-done:
+			case <-time.After(5 * time.Second):
+			}
+		}
+		for _, e := range es {
+			i, _ := strconv.Atoi(e.ID)
+			if bad[i] {
+				return fmt.Errorf("sink rejects %s", e.ID)
+			}
+		}
+		return nil
+	}
+	var err error
+	vj, err = jobs.NewVerifJob(c17Hub.Runner, jobID, &listSource{n: n}, nil, sink, n+1, false, true, geti(in, "m"), false, 0, 0, false)
+	if err != nil {
+		return M{"err": err.Error()}
+	}
+	vj.Run()
+	delivered := []int{}
+	for _, b := range sink.Batches {
+		delivered = append(delivered, idsOf(b)...)
+	}
+	lastErr, _, found := jobs.VerifLastResult(c17Hub.Runner, jobID)
+	return M{"delivered": delivered, "calls": sink.CallCount, "failed": found && lastErr != ""}
+}
+
+func genC17Overlap(c *Ctx) {
+	cases := 150
+	if c.Thorough {
+		cases = 3000
+	}
+	for i := 0; i < cases; i++ {
+		n := 2 + c.Rng.Intn(10)
+		bad := []int{}
+		for k := 0; k < n; k++ {
+			if c.Rng.Intn(3) == 0 {
+				bad = append(bad, k)
+			}
+		}
+		c.Do("c17.overlap", M{"n": n, "bad": bad, "m": c.Rng.Intn(4), "triggerAt": c.Rng.Intn(2*n+2) - 1})
+	}
+}
+
+func init() {
+	register("c17overlap", genC17Overlap)
+	registerKind("c17.overlap", runC17Overlap)
+}
